@@ -463,8 +463,12 @@ def run(cx):
                 # the context is either built in this function or returned by a local factory
                 builders = []
                 for d in loc.defs.get(cname, []):
-                    if isinstance(d, ast.Call) and isinstance(d.func, ast.Name) and f"{q}.{d.func.id}" in pm.funcs:
-                        builders.append((pm.funcs[f"{q}.{d.func.id}"], "child"))
+                    if isinstance(d, ast.Call) and isinstance(d.func, ast.Name) and (f"{q}.{d.func.id}" in pm.funcs or d.func.id in pm.funcs):
+                        # a factory (nested or module level): the scope is the value it returns
+                        bfn_ = pm.funcs.get(f"{q}.{d.func.id}") or pm.funcs[d.func.id]
+                        rets = {r_.value.id for r_ in walk_local(bfn_) if isinstance(r_, ast.Return) and isinstance(r_.value, ast.Name)}
+                        for rv_ in sorted(rets):
+                            builders.append((bfn_, rv_))
                     elif isinstance(d, ast.Call) and norm(d) == "dict(ctx)":
                         builders.append((fn, cname))
                 if not builders:
